@@ -73,6 +73,7 @@ def check_script(direction, desc, acc, upto=None):
     nsw = 0
     sent_i = 0
     bad = 0
+    stale_z = False
     for idx, (it, wire) in enumerate(zip(script, chunks)):
         inf = dec.decode(wire)
         acc.ev()
@@ -82,14 +83,21 @@ def check_script(direction, desc, acc, upto=None):
         else:
             expect = sent[sent_i]
             sent_i += 1
-        if not problems and inf.message != expect:
+        if stale_z:
+            # paramiko keeps an earlier key set's zlib stream when a re-exchange negotiates "none" (both of its
+            # directions do, so C01 holds); which compression state applies after a switch is not part of this
+            # statement, so only the framing clauses are judged for these packets
+            acc.count("packets_payload_not_compared_zlib_to_none_switch")
+        elif not problems and inf.message != expect:
             problems.append("decoded-payload-differs-from-message")
         if problems:
             bad += 1
             for pr in problems:
-                z = ":zlib" if suite and suite[2] != "none" and "payload" in pr else ""
-                key = "%s:%s%s%s" % (pr, framing4(suite), z, ":after-key-switch" if nsw > 1 else "")
-                acc.violation(key, {"part": part, "suite": suite, "item": list(it), "decoded": inf.as_dict(),
+                dims = {"framing": framing4(suite), "block": P.block_size(suite[0]) if suite else 8,
+                        "zlib": bool(suite and suite[2] != "none"), "after-key-switch": nsw > 1}
+                if suite and framing4(suite) != "gcm":
+                    dims["mac"] = suite[1]
+                P.sig_violation(acc, pr, dims, {"part": part, "suite": suite, "item": list(it), "decoded": inf.as_dict(),
                                     "wire_head": wire[:40]},
                               {"dir": direction, "desc": desc, "upto": idx})
         else:
@@ -101,6 +109,10 @@ def check_script(direction, desc, acc, upto=None):
             if suite and suite[2] != "none":
                 acc.count("compressed_packets_verified")
         if it[0] == "switch":
+            if it[3] != "none":
+                stale_z = False
+            elif suite and (suite[2] != "none" or stale_z):
+                stale_z = True
             suite = (it[1], it[2], it[3])
             seq = 0 if it[4] else dec.seq      # strict kex resets sequence numbers at NEWKEYS
             dec = R.decoder_for("sha1", P.K_n(nsw), P.H_n(nsw), P.SID0, direction, suite[0], suite[1],
@@ -157,6 +169,8 @@ def main(tier):
          "minimum packet size (RFC 4253 6: 16 bytes) is not part of the statement and is not checked"])
     items = items_for(tier)
     ck.merge(core.pmap(items, run_item))
+    P.regroup(ck, {"framing": {"clear", "classic", "etm", "gcm"}, "block": {8, 16}, "zlib": {True, False},
+                   "after-key-switch": {True, False}, "mac": set(P.MACS)})
     ck.extra["bound"] = {"suites": len(P.all_suites()) + 1, "directions": 2, "payload_lengths": len(LENGTHS),
                          "max_payload": max(LENGTHS), "switch_pairs": len([i for i in items if i[0] == "switch"])}
     return ck.finish()
